@@ -34,7 +34,7 @@ def run(cx, chk):
     from .lib.report import Relabel
     for cfg, F in cx.cfgs():
         chk.floor("C06.R6", "callback site visits in %s" % cfg, ntrun.callback_consistency(cx, chk, cfg, "C06.R6", only=lambda g: (F.impl_of(g) or {}).get("self_head") == RAW,
-                  why="if it unwinds, peek_lru / remove_lru / the next eviction see a node the index does not know"), 10)
+                  why="if it unwinds, peek_lru / remove_lru / the next eviction see a node the index does not know"), 6)
         fcl = [F.fns[i] for im in F.doc["impls"] if (im["trait"] or "").endswith("clone::Clone") and im["self_head"] == RAW for i in im["items"] if i in F.fns and F.fns[i]["name"] == "clone"]
         if len(fcl) != 1:
             raise AnalysisError("C06.R5: RawLRU::clone not found in %s" % cfg)
